@@ -47,6 +47,13 @@ def get_types():
     ]
 
 
+def other_type(T):
+    from vc2_conformance.pseudocode.state import State
+    from vc2_conformance.pseudocode.video_parameters import VideoParameters
+
+    return VideoParameters if T is State else State
+
+
 def type_entry(tname):
     for t in get_types():
         if t[0] == tname:
@@ -82,11 +89,13 @@ def alphabet(keys):
         if k1 != k0:
             ops.append(("update", form, ((k0, 1), (k1, 0))))
     ops.append(("update", "dict+kwargs", ((k0, 0), (BOGUS, 1))))
-    for form in ("dict", "pairs", "fixeddict"):
+    for form in ("dict", "pairs", "fixeddict", "otherfixeddict"):
         for k in ks:
             if form == "fixeddict" and k == BOGUS:
                 continue
             ops.append(("ior", form, ((k, 1),)))
+    for k in ks:
+        ops.append(("update", "otherfixeddict", ((k, 1),)))
     ops.append(("ior", "dict", ((k0, 0), (BOGUS, 1))))
     for how in ("method", "copy.copy", "copy.deepcopy", "ctor"):
         ops.append(("copy", how))
@@ -116,6 +125,8 @@ def constructors(keys):
     out.append(("ctor", "fixeddict+kwargs", ((keys[0], 1), (BOGUS, 0))))
     out.append(("ctor", "fixeddict+kwargs", ((keys[0], 1), (keys[-1], 0))))
     out.append(("ctor", "pairs+kwargs", ((keys[0], 1), (BOGUS, 0))))
+    out.append(("ctor", "otherfixeddict", ((keys[0], 1),)))
+    out.append(("ctor", "otherfixeddict", ((BOGUS, 1),)))
     return out
 
 
@@ -130,6 +141,12 @@ def _mk_arg(T, form, items, vals):
     if form == "fixeddict":
         o = T.__new__(T)
         dict.update(o, dict(items))  # bypasses the class under test
+        return (o,), {}
+    if form == "otherfixeddict":
+        # a fixeddict of ANOTHER type holding the same items (bypassing its own key check)
+        O = other_type(T)
+        o = O.__new__(O)
+        dict.update(o, dict(items))
         return (o,), {}
     if form == "dict+kwargs":
         return (dict(items[:1]),), dict(items[1:])
@@ -466,6 +483,69 @@ def check_cycle(tname, kind, op):
     return problems
 
 
+class _Forged(object):
+    """Pickles as 'an object of type T with this state' without ever being a valid T."""
+
+    def __init__(self, T, state):
+        self.T, self.state = T, state
+
+    def __reduce__(self):
+        return (self.T, (), self.state)
+
+
+def check_forged_pickle(tname, kind, proto):
+    """A pickle stream that was not produced from a valid instance (version skew, hand-made):
+    loading must either fail or give an instance holding declared keys only."""
+    from vc2_conformance.fixeddict import FixedDictKeyError
+
+    T, keys, vals = type_entry(tname)
+    declared = set(T.entry_objs.keys())
+    if kind == "reduce-undeclared":
+        data = pickle.dumps(_Forged(T, {keys[0]: vals[0], BOGUS: 1}), proto)
+    elif kind == "reduce-declared":
+        data = pickle.dumps(_Forged(T, {keys[0]: vals[0]}), proto)
+    elif kind == "renamed-key":
+        k = [x for x in keys if isinstance(x, str) and len(x) > 3][0]
+        good = T()
+        good[k] = vals[0]
+        data = pickle.dumps(good, proto)
+        forged_name = k[:-1] + ("q" if k[-1] != "q" else "z")
+        if k.encode() not in data or forged_name in declared:
+            return []
+        data = data.replace(k.encode(), forged_name.encode())
+    else:
+        raise ValueError(kind)
+    try:
+        obj = pickle.loads(data)
+    except FixedDictKeyError:
+        return [] if kind != "reduce-declared" else ["loading a well-formed forged pickle raised FixedDictKeyError"]
+    except Exception as e:  # noqa
+        return [] if kind != "reduce-declared" else ["loading a well-formed forged pickle raised %s" % type(e).__name__]
+    problems = []
+    if type(obj) is T:
+        extra = set(obj.keys()) - declared
+        if extra:
+            problems.append("unpickling a %s stream (%s, protocol %d) gave a %s holding undeclared keys %r" % (tname, kind, proto, tname, sorted(map(str, extra))))
+            for how, cp in (("copy", copy.copy), ("deepcopy", copy.deepcopy)):
+                try:
+                    c2 = cp(obj)
+                    if set(c2.keys()) - declared:
+                        problems.append("... and %s of it keeps them" % how)
+                except Exception:  # noqa
+                    pass
+    return problems
+
+
+def run_forged(total):
+    for tname, _T, _k, _v in get_types():
+        for kind in ("reduce-undeclared", "reduce-declared", "renamed-key"):
+            for proto in range(0, 6):
+                total.count("forged_pickles")
+                pr = check_forged_pickle(tname, kind, proto)
+                if pr:
+                    total.violation(pr[0], {"forged": [tname, kind, proto]})
+
+
 def run_cycles(total):
     for tname, _T, _k, _v in get_types():
         for kind in CYCLE_SHAPES:
@@ -490,6 +570,7 @@ def run(ctx):
     res = pool.map_shards(_shard, shards)
     total.merge(res)
     run_cycles(total)
+    run_forged(total)
     n_alpha = {t[0]: len(alphabet(type_entry(t[0])[1])) for t in types}
     total.sample("history", {"type": "State", "history": [("ctor", "empty", ()), ("ior", "dict", ((BOGUS, 1),))]})
     total.sample("history", {"type": "ParseInfo", "history": [("ctor", "kwargs", (("parse_code", 0),)), ("update", "pairs", (("parse_code", 0), (BOGUS, 1))), ("pickle", 2)]})
@@ -498,7 +579,7 @@ def run(ctx):
         "transitions": total.n["bfs_transitions"] + total.n["executions"],
         "traces_validated_against_impl": total.n["executions"] + total.n["bfs_transitions"],
         "exhaustive": True,
-        "bounds": {"cycles": "%d types x %r x %r: structure (identities included) preserved" % (len(types), CYCLE_SHAPES, ["pickle protocols 0-5", "copy.deepcopy"]), "history_depth_without_dedup": depth, "bfs": "to fixpoint (depth %d)" % total.n["bfs_max_depth"], "types": [t[0] for t in types], "alphabet_sizes": n_alpha},
+        "bounds": {"forged_pickles": "5 types x {__reduce__ state with / without an undeclared key, a genuine pickle with one key renamed} x protocols 0-5: loading fails or yields declared keys only", "operands_of_other_fixeddict_types": "update / |= / constructor with a fixeddict of another type holding declared or undeclared keys", "cycles": "%d types x %r x %r: structure (identities included) preserved" % (len(types), CYCLE_SHAPES, ["pickle protocols 0-5", "copy.deepcopy"]), "history_depth_without_dedup": depth, "bfs": "to fixpoint (depth %d)" % total.n["bfs_max_depth"], "types": [t[0] for t in types], "alphabet_sizes": n_alpha},
         "rule": "every operation history of length <= depth over the alphabet, replayed on fresh real objects and compared step by step with a plain-dict model; plus BFS to fixpoint with dedup on (type, full contents)",
     }
     return total, cov
@@ -507,6 +588,8 @@ def run(ctx):
 def replay_case(case):
     if "cycle" in case:
         return check_cycle(*case["cycle"])
+    if "forged" in case:
+        return check_forged_pickle(*case["forged"])
     hist = [tuple(tuple(tuple(i) if isinstance(i, list) else i for i in x) if isinstance(x, list) else x for x in op) for op in case["history"]]
     problems, _ = run_history(case["type"], hist)
     return problems
